@@ -9,7 +9,7 @@ use sea_query::*;
 
 fn a(s: &str) -> Alias { Alias::new(s) }
 
-type Call<S> = (&'static str, fn(&mut S, u64));
+pub type Call<S> = (&'static str, fn(&mut S, u64));
 
 /// a nested statement that has the clauses the outer clearers remove, so that a clear reaching into nested statements shows
 fn nested(k: u64) -> SelectStatement {
@@ -19,7 +19,7 @@ fn nested(k: u64) -> SelectStatement {
     q
 }
 
-fn select_calls() -> Vec<Call<SelectStatement>> {
+pub fn select_calls() -> Vec<Call<SelectStatement>> {
     vec![
         ("distinct", |s, _| { s.distinct(); }),
         ("selects", |s, k| { if k % 2 == 0 { s.column(a("c1")); } else { s.expr_as(Expr::col(a("c2")).add(k as i32), a("e")); } }),
